@@ -182,7 +182,7 @@ HasInlineMap(T, v) ==
      /\ LET U == Resolve(T.f[j].t) IN U.k \in {"map", "iface", "ptr"} \/ (U.k = "struct" /\ HasInlineMap(U, v.f[j]))
 
 \* the observed value is the documented one (either reading of "empty behind a pointer")
-FoldAdmits(T, v, obs) == Equiv({}, FoldSem(T, v, TRUE), obs) \/ Equiv({}, FoldSem(T, v, FALSE), obs)
+FoldAdmits(T, v, obs) == Equiv({"nan"}, FoldSem(T, v, TRUE), obs) \/ Equiv({"nan"}, FoldSem(T, v, FALSE), obs)
 
 \* ---- round trip (C11) ---------------------------------------------------------------
 \* fields the mapping never reports must stay zero in a fresh target
@@ -208,7 +208,7 @@ SkippedZero(T0, v) ==
     [] OTHER -> TRUE
 RoundTripOK(R, T, v, r) ==
   /\ SkippedZero(T, r)
-  /\ \E a \in BOOLEAN : \E b \in BOOLEAN : Equiv(R, FoldSem(T, v, a), FoldSem(T, r, b))
+  /\ \E a \in BOOLEAN : \E b \in BOOLEAN : Equiv(R \cup {"nan"}, FoldSem(T, v, a), FoldSem(T, r, b))
 
 \* a value that some transport cannot carry unchanged (documented representation limits)
 RECURSIVE HasNonFinite(_), HasBigUint(_)
@@ -309,5 +309,5 @@ ExpFields(T, old, sv) ==
                    IF m = 0 THEN keep ELSE Exp(f.t, o, sv.v[m].val)]]
 
 \* comparison of an expected Plain tree with the Plain projection of the result
-PlainMatch(R, want, T0, r) == Equiv(R, want, Plain(T0, r))
+PlainMatch(R, want, T0, r) == Equiv(R \cup {"nan"}, want, Plain(T0, r))
 =============================================================================
